@@ -164,83 +164,7 @@ def gen_case(seed, tier='quick', index=1):
             'world': world, 'ops': ops}
 
 
-# constant formulas that stress or observe process-wide numeric state
-# (floating-point error handling, decimal contexts, overflow paths)
-STRESSORS = ['=EXP(800)', '=1/0', '=SQRT(-1)', '=LN(0)', '=POWER(10,400)',
-             '=10^400', '=FACT(200)', '=COSH(800)*0', '=EXP(710)-EXP(710)',
-             '=MOD(5,0)', '=LOG10(-1)', '=ASIN(2)', '=1E308*10', '=ROUND(1E308,2)']
-OBSERVERS = ['=COSH(800)', '=DEGREES(1E308)', '=ROUND(2.5,0)', '=ROUND(0.125,2)',
-             '=ROUND(-4.5,0)', '=1E308*10', '=EXP(709)', '=10/3', '=SQRT(2)',
-             '=ROUNDUP(2.341,2)', '=ROUNDDOWN(-2.349,2)', '=2^0.5', '=EXP(1)',
-             '=1/3+1/3', '=SINH(750)', '=1E-320/10', '=FLOOR(2.5,1)',
-             '=TRUNC(1E15+0.5)', '=ROUND(1.005,2)']
-
-
-def add_env_cells(rng, world):
-    """A few constant formulas on a sheet of their own: some that drive
-    numeric code into its overflow / error paths, some whose value would
-    change if that left anything behind."""
-    if rng.random() < 0.5:
-        return
-    k = 1
-    for pool, n in ((STRESSORS, rng.randint(1, 2)),
-                    (OBSERVERS, rng.randint(2, 3))):
-        for f in rng.sample(pool, n):
-            a = f'Env!A{k}'
-            k += 1
-            world['cells'][a] = f
-            world['deps'][a] = []
-            world['level'][a] = 1
-            world['order'].append(a)
-    if rng.random() < 0.3:
-        # a column mixing booleans, texts that look like booleans and
-        # numbers, counted with criteria that differ only in type
-        for r, v in enumerate([True, 'TRUE', 1, 'true', False, '1']):
-            a = f'Env!H{r + 1}'
-            world['cells'][a] = v
-            world['deps'][a] = []
-            world['level'][a] = 0
-            world['order'].append(a)
-        for f in rng.sample(['=COUNTIF(H1:H6,TRUE)', '=COUNTIF(H1:H6,"true")',
-                             '=COUNTIF(H1:H6,1)', '=COUNTIF(H1:H6,"1")',
-                             '=COUNTIF(H1:H6,FALSE)',
-                             '=COUNTIF(H1:H6,"FALSE")'], rng.randint(2, 4)):
-            a = f'Env!A{k}'
-            k += 1
-            world['cells'][a] = f
-            world['deps'][a] = [f'Env!H{r + 1}' for r in range(6)]
-            world['level'][a] = 1
-            world['order'].append(a)
-    if rng.random() < 0.35:
-        # cash-flow tables with iterative solvers on top (module-level state
-        # in a numeric routine would make their results order dependent)
-        import datetime as _dt
-        flows = [[-100, 30, 40, 50], [-100, 230, -132, 5],
-                 [-1000, 300, 400, 500]]
-        fml = []
-        for t, fl in enumerate(rng.sample(flows, 2)):
-            vcol, dcol = ('C', 'D') if t == 0 else ('F', 'G')
-            for r, v in enumerate(fl):
-                for col_, val in ((vcol, v), (dcol, worlds.enc(
-                        _dt.datetime(2020 + r // 2, 1 + 6 * (r % 2), 1)))):
-                    a = f'Env!{col_}{r + 1}'
-                    world['cells'][a] = val
-                    world['deps'][a] = []
-                    world['level'][a] = 0
-                    world['order'].append(a)
-            n = len(fl)
-            fml += [f'=XIRR({vcol}1:{vcol}{n},{dcol}1:{dcol}{n})',
-                    f'=IRR({vcol}1:{vcol}{n})',
-                    f'=XNPV(0.1,{vcol}1:{vcol}{n},{dcol}1:{dcol}{n})']
-        for f in rng.sample(fml, rng.randint(2, 4)):
-            a = f'Env!A{k}'
-            k += 1
-            world['cells'][a] = f
-            world['deps'][a] = []
-            world['level'][a] = 1
-            world['order'].append(a)
-    if 'Env' not in world['sheets']:
-        world['sheets'] = list(world['sheets']) + ['Env']
+add_env_cells = worlds.add_env_cells
 
 
 def gen_soak(rng, seed, tier):
